@@ -146,9 +146,15 @@ def run(ctx):
     for i in range(4):
         bd = q.bits_drivers(ir, 'self.source.valid', i, i + 1)          # bit i, written on its own or inside a Cat()
         d = [x for x, _ in bd]
-        ok = len(bd) == 1 and bd[0][1] is not None and \
-            q.conj(bd[0][1]) == {(('data_bytes_remaining >= %d' % (i + 1), True) if i else ('0 == data_bytes_remaining', False)),
-                                 ('self.sink.valid', True)}
+        want_v = {(('data_bytes_remaining >= %d' % (i + 1), True) if i else ('0 == data_bytes_remaining', False)), ('self.sink.valid', True)}
+        # the bit is 1 exactly under (remaining > i) & sink.valid: one driver that can raise it, the condition split between
+        # its guard and its expression in any way; drivers of 0 count only if a later one could override the raise
+        def zero(x, ex):
+            return q.is_zero(ex) if ex is not None else q.is_zero(x.rhs)
+        nz = [(x, ex) for x, ex in bd if not zero(x, ex)]
+        zs = [x for x, ex in bd if zero(x, ex)]
+        ok = len(nz) == 1 and nz[0][1] is not None and (q.conj(nz[0][1]) if not q.is_one(nz[0][1]) else set()) | q.atoms(nz[0][0]) == want_v and \
+            not [z for z in zs if z.order > nz[0][0].order and all((a_, not p_) not in want_v for a_, p_ in q.atoms(z))]
         ctx.ob('C40.byte-valid', 'DataPacketReceiver.source.valid[%d]' % i, ok, d[0].loc if d else None,
                'valid[%d] must be (remaining > %d) & sink.valid' % (i, i))
     for port, val in (('advance_word', 15), ('advance_3B', 7), ('advance_2B', 3), ('advance_1B', 1)):
